@@ -297,6 +297,12 @@ R25 = {
  "C15": "every trapezoid put on the merger's list is counted before the function returns or inserts again",
 }
 
+# Clauses added in round 27 (DESIGN.md §10.26).
+R27 = {
+ "C05": "RevComp and Reverse of the column-major alignments read no fixed column unconditionally (the alignment without columns is left to the walk)",
+ "C09": "no method is called on the query's alphabet, in Align or a helper it is handed to, where it is not known to be non-nil",
+}
+
 NOT_APPLICABLE = {
 }
 
@@ -363,6 +369,10 @@ def main():
                 tech = tech + "; " + R25[pid]
                 text = text + " Round 25 (DESIGN §10.24) adds: " + R25[pid] + "."
                 ref = ref + ", §10.24"
+            if pid in R27:
+                tech = tech + "; " + R27[pid]
+                text = text + " Round 27 (DESIGN §10.26) adds: " + R27[pid] + "."
+                ref = ref + ", §10.26"
             text = text + " The thorough tier also replays the independently written behaviour-preserving refactorings of /verif/benign (DESIGN §10.8, §10.9, §10.11, §10.13, §10.15, §10.17, §10.19, §10.21, §10.23, §10.25) and fails if one of them is reported."
             checks.append({
                 "property_id": pid,
